@@ -120,6 +120,10 @@ class Env:
         class HasFly(typing.Protocol):
             def fly(self): ...
 
+        @typing.runtime_checkable
+        class HasFly2(typing.Protocol):     # a second protocol with the same member: mutual structural subclasses
+            def fly(self): ...
+
         class Shape(abc.ABC):
             pass
 
@@ -136,7 +140,8 @@ class Env:
         class MyStr(str):
             pass
 
-        for c in (HasFly, Shape, Hook, MyInt, MyStr):
+        self.names["Hashable"] = cabc.Hashable      # object and Hashable are subclasses of each other
+        for c in (HasFly, HasFly2, Shape, Hook, MyInt, MyStr):
             c.__module__ = "vfcase"
             c.__qualname__ = c.__name__
             self.names[c.__name__] = c
